@@ -105,6 +105,22 @@ fn run_with<T: nuts_rs::verif::Transformation<CpuMath<QuadLogp>>>(
     if d0["logp"].as_f64().unwrap().to_bits() != q(&case["logp0"]).to_bits() && q(&case["logp0"]) != 0.0 {
         return Err(format!("{label}: logp at start {} vs {}", d0["logp"], q(&case["logp0"])));
     }
+    // the re-normalisation of an already evaluated point (used when a point's whitened coordinates are stale after the
+    // transformation changed) gives the same whitened position and pulled-back gradient as the full evaluation
+    {
+        let gx0 = jv(&d0["gx"]);
+        let (mut xv, mut gv) = (math.new_array(), math.new_array());
+        math.read_from_slice(&mut xv, &x0);
+        math.read_from_slice(&mut gv, &gx0);
+        let (mut y, mut gy) = (math.new_array(), math.new_array());
+        match ham.transformation().inv_transform_normalize(&mut math, &xv, &gv, &mut y, &mut gy) {
+            Ok(_) => {
+                chk("whitened position from inv_transform_normalize", &json!(math.box_array(&y).to_vec()), &c["y"])?;
+                chk("pulled-back gradient from inv_transform_normalize", &json!(math.box_array(&gy).to_vec()), &case["gy0"])?;
+            }
+            Err(e) => return Err(format!("{label}: inv_transform_normalize: {e:?}")),
+        }
+    }
     let v0 = qv(&c["v"]);
     verif::point_set_velocity(&mut math, &mut state, &v0);
     let mut rng = <nuts_rs::rand::rngs::ChaCha8Rng as nuts_rs::rand::SeedableRng>::seed_from_u64(0);
